@@ -108,9 +108,10 @@ def _rows(mol, ref_rot=None):
         ang = 0
         if ref_rot is not None:
             ang = int(np.ceil((ref_rot[i].inv() * mol.rotator[i]).magnitude() * 1e6))
-        rows.append(dict(pos=[int(round(float(x) * U)) for x in pos[i]], angle_urad=ang,
+        hp = int(round(float(feats["hp"][i]) * 10**9)) if "hp" in feats.columns else 0
+        rows.append(dict(pos=[int(round(float(x) * U)) for x in pos[i]], angle_urad=ang, hp=hp,
                          q=[int(np.ceil(float(np.spacing(np.float32(abs(x)))) * U)) for x in pos[i]],
-                         f={c: _feat_val(feats[c][i]) for c in feats.columns} or {"_": {"t": "null", "x": 0}}))
+                         f={c: _feat_val(feats[c][i]) for c in feats.columns if c != "hp"} or {"_": {"t": "null", "x": 0}}))
     return rows
 
 
@@ -130,12 +131,20 @@ def replay(case) -> dict:
         mol = Molecules(np.zeros((0, 3)), None, features=intended)
     else:
         intended = _features(cfg["feats"], n, rng)
+        if cfg["prec"] >= 7 or (cfg["via"] in ("parquet", "frame") and case["_i"] % 2 == 0):
+            # a double-precision feature with nine significant decimals (file formats keep Float64 features as they are)
+            hpcol = pl.Series("hp", np.round(rng.uniform(0.1, 1.9, size=n), 9), dtype=pl.Float64)
+            intended = pl.DataFrame([hpcol]) if intended is None else intended.with_columns(hpcol)
         mol = Molecules(pos, _rotations(cfg["rots"], n, rng), features=intended)
     if cfg.get("prep") == "inplace" and n > 0:
         # history before saving: the table was shifted IN PLACE, by plain Python floats and by a float64 array (what is saved is
         # the table as it stands now)
         mol.translate([0.5, -0.25, 1.0], copy=False)
         mol.translate_internal(np.array([[0.125, 0.0, -0.5]] * n, dtype=np.float64), copy=False)
+        # ... and looked at (rotation vectors, data frame) and then ROTATED in place: what is saved is the orientation it has now
+        mol.rotvec()
+        mol.to_dataframe()
+        mol.rotate_by_rotvec_internal(np.array([[0.3, -0.2, 0.5]] * n, dtype=np.float64), copy=False)
     ev = dict(id=str(case["_i"]), via=cfg["via"], suffix=cfg["suffix"], prec=cfg["prec"], cols=([] if intended is None else list(intended.columns)),
               header=[], stored_as="", rows=_rows(mol), back=[], err="", cols_back=[])
     tmp = tempfile.mkdtemp(prefix="c13-", dir=str(engine.WORK))
